@@ -283,6 +283,7 @@ func init() {
 	register("C32", func(c *Ctx, r *Report) {
 		r.Decides("PruneConfigFalse always walks the struct it is given with the schema it is given; the iterator's only write zeroes the visited field and is reached only for a schema that util.IsConfig reports false; fields are skipped only for the documented reasons; IsConfig is goyang's inherited config decision.",
 			"that util.Walk visits every populated field of every tree (traversal completeness); value-level equality of the config-true remainder.")
+		ruleChoiceFirstChild(c, r)
 		rulePruneConfigFalse(c, r)
 		ruleSchemaRebuild(c, r)
 	})
